@@ -795,12 +795,14 @@ class Channel:
             # state transition "closed" --> "deleted"
             for error in self._remoteerrors:
                 error.warn()
-        elif self._receiveclosed.is_set():
-            # state transition "sendonly" --> "deleted"
-            # the remote channel is already in "deleted" state, nothing to do
+        elif self._receiveclosed.is_set() and self.gateway._channelfactory.finished:
+            # receiving has ended, there is nobody to tell
             pass
         else:
-            # state transition "opened" --> "deleted"
+            # state transition "opened" or "sendonly" --> "deleted"
+            # (in "sendonly" state the remote channel object is gone, but
+            # a callback may still be registered for it over there: the
+            # message lets the other side forget it)
             # check if we are in the middle of interpreter shutdown
             # in which case the process will go away and we probably
             # don't need to try to send a closing or last message
@@ -878,7 +880,12 @@ class Channel:
             # but it's never damaging to send too many CHANNEL_CLOSE messages
             # however, if the other side triggered a close already, we
             # do not send back a closed message.
-            if not self._receiveclosed.is_set():
+            if (
+                not self._receiveclosed.is_set()
+                or not self.gateway._channelfactory.finished
+            ):
+                # also from the "sendonly" state: the other side dropped its
+                # channel object but may still have a callback registered
                 put = self.gateway._send
                 if error is not None:
                     put(Message.CHANNEL_CLOSE_ERROR, self.id, dumps_internal(error))
